@@ -36,13 +36,17 @@ CLAIMED = {
         note=NOTE_COMMON + "std::sort/nth_element are assumed to produce a sorted permutation; make_from_exponents' pow/log threshold formula is read back from the implementation, not modelled."),
     "C13": dict(
         category="proof", technique=TECH, design="DESIGN.md §4 C13",
-        text="Both tuners are modelled as a small-step machine (coarse / main / done) with std::sort and the surrogate's proposed centre as oracles; "
+        text="Both tuners are modelled as a small-step machine (coarse / main / done) with std::sort and the two L-BFGS runs of the surrogate tuner as oracles (the parameter spaces - linear / log10 maps, closest "
+             "grid point -, the quadratic surrogate - feature map, least-squares fit objective, fitted quadratic - and the derivation of the next centre from the minimiser are modelled: gradient = derivative along every "
+             "line, the fit objective is convex and a stationary point is its global minimiser, grid round-trips, closest-point optimality, the centre always lies in the grid box, the next batch is the radius-1 neighbourhood "
+             "of the image of the solver's minimiser, closest_trial reads only trials of earlier batches, operator< on steps is a strict weak order: 33 theorems); "
              "for every callback, sort meeting the contract and oracle it is proved that only grid points are evaluated, none twice, at most "
              "max_evals + 3^d, non-finite values are rejected exactly then, the returned steps are all evaluations sorted with the minimum first, and "
              "termination; for ml::tune the (trial, fold) decoding is a bijection onto disjoint slots, each pair is called once and the optimum is the "
              "first arg-min of the mean validation error (25 theorems). Exact correspondence of every callback batch / returned step / call log against "
-             "tuner.cpp, util.cpp, local.cpp, surrogate.cpp, machine/tune.cpp plus direct monitors of the statement.",
-        note=NOTE_COMMON + "The quadratic-surrogate fit (an L-BFGS run) is an oracle: only the centre it proposes is observed; the pool running each index once is C17's theorem. "
+             "tuner.cpp, util.cpp, local.cpp, surrogate.cpp, space.cpp, machine/tune.cpp, machine/result.cpp plus direct monitors of the statement; the surrogate's value / gradient at the points the solver logged, the "
+             "spaces' maps (bit-exact, same libm log10 / pow) and, as run-time monitors in exact rationals, stationarity of every converged fit / minimisation and the centre actually used.",
+        note=NOTE_COMMON + "The L-BFGS iterations of the surrogate fit / minimisation are oracles without contract in the theorems (monitored at run time); the pool running each index once is C17's theorem. "
              "One open known finding (surrogate tuner overflows on |values| >= 1e150)."),
     "C14": dict(
         category="proof", technique=TECH, design="DESIGN.md §4 C14",
@@ -76,9 +80,14 @@ CLAIMED = {
         text="Value and gradient of the linear-penalty, quadratic-penalty and augmented-Lagrangian functions as coded equal the header formulas for any constraint "
              "list, multipliers and penalty; they coincide with the objective at feasible points; the 11 constraint kinds' validity measure is |h| / max(g,0); and for EVERY "
              "inner-solver behaviour the augmented-Lagrangian outer loop keeps miu >= 0, keeps violation(best) <= old criterion, and status converged implies |h_j| <= eps and "
-             "max(0,g_i) <= eps at the returned point with the stored constraint values recomputed from the problem (22 theorems). Correspondence: penalty functions and constraint "
-             "kinds function-level (exact / 1e-12), the outer loop by oracle replay of the trace hook (every criterion, flag, rho, lambda, miu, best state compared exactly).",
-        note=NOTE_COMMON + "The inner solver is an oracle (its answers are logged and checked to be consistent states); solver_penalty_t is outside the statement and not modelled."),
+             "max(0,g_i) <= eps at the returned point with the stored constraint values recomputed from the problem (22 theorems). Beyond the statement, the outer loop of the linear / quadratic penalty "
+             "SOLVERS, the augmented-Lagrangian inner problem and solver_state_t's multiplier / KKT bookkeeping are modelled too (29 further theorems, for every inner-solver behaviour): status converged of a penalty "
+             "solver means exactly the step test on the last valid inner answer - it does NOT imply feasibility (kernel-checked witness replayed on the code: converged with violation 500 eps; the statement promises "
+             "feasibility for the augmented Lagrangian only) -, the penalty and inner-precision schedules, which point is returned, iteration / call counts, the status meanings, the k-th inner problem is the penalty "
+             "function with penalty0 eta^k started at the last valid answer, the stored constraint values are recomputed at the returned point, the Lagrangian gradient and the five KKT tests equal their definitions, "
+             "kkt_optimality_test <= eps implies an eps-KKT point. Correspondence: penalty functions and constraint kinds function-level (exact / 1e-12), the AL and penalty outer loops by oracle replay of the trace "
+             "hooks (every criterion, flag, penalty, multiplier, start point, inner objective, returned state compared exactly; stored constraint values and KKT tests at 1e-12).",
+        note=NOTE_COMMON + "The inner solver is an oracle (its answers are logged and checked to be consistent states); status failed of the penalty solvers is never reached with the current inner solvers (theorem only)."),
     "C17": dict(
         category="proof", technique="Lean 4 proof of a protocol model for unbounded workers/tasks/clients + trace inclusion of recorded executions", design="DESIGN.md §4 C17",
         text="The pool is modelled as a labelled transition system in which every critical section is one atomic event (14 events incl. the sequential path of map); for every reachable "
